@@ -13,7 +13,7 @@ REPO = os.path.abspath(os.environ.get("GROG_REPO", "/tmp/wk/walker/repo"))
 VERIF = os.path.dirname(os.path.dirname(os.path.abspath(__file__)))
 MUT = "/tmp/mutdesc"
 OUT = "/tmp/wk/walker/matrix"
-ROUNDS = ["c03a", "c04a", "c05a", "c03b", "c04b", "c05b", "c03c", "c04c", "c05c", "c18a", "c18b", "c18c"]
+ROUNDS = ["c03a", "c04a", "c05a", "c03b", "c04b", "c05b", "c03c", "c04c", "c05c", "c18a", "c18b", "c18c", "walkerd"]
 
 
 OLD_ROUTINE = """	select {
@@ -95,7 +95,7 @@ def run_one(name, seed):
     variant = name
     name = name.split(":")[0]
     rnd, m = name.split("/")
-    prop = rnd[:3].upper()
+    prop = m[:3].upper() if m[:1] in "Cc" and m[1:3].isdigit() else rnd[:3].upper()
     work = os.path.join(OUT, "repo-" + variant.replace("/", "-").replace(":", "-"))
     shutil.rmtree(work, ignore_errors=True)
     os.makedirs(work)
